@@ -50,6 +50,7 @@ func c06Forms() []c06Form {
 		{"guid", "g{01234567-89ab-cdef-0123-456789abcdef}", 0},
 		{"list-empty", "a{}", 0}, {"list-ints", "a2{12}", 0}, {"list-strs", "a2{uaub}", 0}, {"list-null", "a1{n}", 0}, {"list-mixed", "a2{1ua}", 0},
 		{"list-str-ref", "a2{s5\"hello\"%R1;}", 0}, {"list-bytes-ref", "a2{b2\"ab\"%R1;}", 0}, {"list-self-ref-str", "a3{s2\"xy\"s2\"zw\"%R1;}", 0},
+		{"list-of-lists", "a2{a2{12}a1{3}}", 0}, {"list-of-maps", "a2{m1{ua1}m2{ub2uc3}}", 0}, {"list-of-3-lists", "a3{a1{7}a{}a2{89}}", 0},
 		{"map-empty", "m{}", 0}, {"map-str-int", "m1{ua1}", 0}, {"map-int-str", "m1{1ua}", 0}, {"map-two", "m2{ua1ub2}", 0},
 		{"map-as-plain", "m2{ua1ubux}", 0}, {"map-as-plain-extra", "m3{ua1ubuxuzt}", 0},
 		{"obj-plain", "c5\"Plain\"3{uaubuc}o0{1uxd1.5;}", 0},
@@ -58,6 +59,17 @@ func c06Forms() []c06Form {
 		{"obj-plain-extra", "c5\"Plain\"4{uaubucuz}o0{1uxd1.5;t}", 0},
 		{"obj-unknown-class", "c7\"Unknown\"2{uaub}o0{1ux}", 0},
 		{"obj-plain-long-names", "c5\"Plain\"3{s1\"a\"s1\"b\"s1\"c\"}o0{1uxd1.5;}", 0},
+	}
+	// the boundaries of every integer width, as integers and as digit strings
+	for _, n := range []string{"-129", "-128", "127", "128", "255", "256", "-32769", "-32768", "32767", "32768", "65535", "65536",
+		"-2147483649", "-2147483648", "2147483647", "2147483648", "4294967295", "4294967296",
+		"-9223372036854775809", "-9223372036854775808", "9223372036854775807", "9223372036854775808",
+		"18446744073709551615", "18446744073709551616"} {
+		tag := "l"
+		if v, err := strconv.ParseInt(n, 10, 64); err == nil && v >= math.MinInt32 && v <= math.MaxInt32 {
+			tag = "i"
+		}
+		f = append(f, c06Form{"n" + n, tag + n + ";", 0}, c06Form{"s" + n, fmt.Sprintf("s%d\"%s\"", len(n), n), 0})
 	}
 	return f
 }
@@ -98,6 +110,8 @@ func c06Dests() []c06Dest {
 	add("array2_int", [2]int{})
 	add("map_string_int", map[string]int(nil))
 	add("map_string_iface", map[string]interface{}(nil))
+	add("map_int_slice_int", map[int][]int(nil))
+	add("map_int_map_string_int", map[int]map[string]int(nil))
 	add("plain", gen.Plain{})
 	add("ptr_plain", (*gen.Plain)(nil))
 	add("myint", gen.MyInt(0))
@@ -105,7 +119,19 @@ func c06Dests() []c06Dest {
 	return d
 }
 
-var c06Positions = []string{"top", "read", "field", "ptrfield", "elem", "mapval", "ptr", "ptrptr"}
+var c06Positions = []string{"top", "read", "field", "ptrfield", "elem", "mapval", "ptr", "ptrptr", "viaref"}
+
+// c06Referable: the form is one reference-counted item that can be the target of a later reference
+// (position viaref: the form is first read into an interface{}, then a reference to it into the
+// destination)
+func c06Referable(body string) bool {
+	if strings.Contains(body, "%R") || body == "" {
+		return false
+	}
+	// only references to strings: the property names them; a reference to any other kind of item is
+	// resolved to the Go object already decoded and converted by other rules than the wire token
+	return body[0] == 's' && body != "s0\"\""
+}
 
 // c06Render places the form's bytes at a position; refBase is the number of referable items the
 // wrapper contributes before the form, so that relative references stay correct
@@ -119,6 +145,9 @@ func c06Render(body string, pos string) []byte {
 		pre, post, base = "a1{", "}", 1
 	case "mapval":
 		pre, post, base = "m1{ua", "}", 1
+	case "viaref":
+		// the map is item 0, the form item 1
+		pre, post, base = "m2{ua", "ubr1;}", 1
 	}
 	out := body
 	for k := 1; k <= 3; k++ {
@@ -221,6 +250,11 @@ func c06One(t *tr.Writer, form c06Form, dest c06Dest, pos string) {
 		target = reflect.PtrTo(dest.T)
 	case "ptrptr":
 		target = reflect.PtrTo(reflect.PtrTo(dest.T))
+	case "viaref":
+		if !c06Referable(form.Body) {
+			return
+		}
+		target = reflect.StructOf([]reflect.StructField{{Name: "A", Type: reflect.TypeOf((*interface{})(nil)).Elem()}, {Name: "B", Type: dest.T}})
 	}
 	// a canary struct around the destination: decoding must not write outside it
 	ct := reflect.StructOf([]reflect.StructField{{Name: "A", Type: reflect.TypeOf(uint64(0))}, {Name: "X", Type: target}, {Name: "B", Type: reflect.TypeOf(uint64(0))}})
@@ -257,6 +291,8 @@ func c06One(t *tr.Writer, form c06Form, dest c06Dest, pos string) {
 		switch pos {
 		case "field":
 			got = got.Field(0)
+		case "viaref":
+			got = got.Field(1)
 		case "ptrfield":
 			got = got.Field(0)
 		case "elem":
